@@ -33,7 +33,7 @@ def run(ctx):
     if rc.violated:
         scens.append(scen_from_cex(rc))
     # 3. behaviours from the spec (simulation) -> scenarios
-    nsim = 40 if q else 400
+    nsim = 40 if q else 2000
     rs = vlib.run_tlc(ctx, "RingBufferSim", "RingBufferSim.cfg", workers=1, simulate="num=%d" % nsim, depth=16)
     seen = {}
     for s in vlib.printed_json(rs.out, "SCEN"):
@@ -48,7 +48,7 @@ def run(ctx):
     with open(sp, "w") as f:
         json.dump(scens, f)
     tp = ctx.path("trace.ndjson")
-    nrand = 300 if q else 6000
+    nrand = 300 if q else 40000
     rc_, out = vlib.go_test(ctx, "ringbuffer", HARNESS, "TestVerifC18",
                             env={"VERIF_SCEN": sp, "VERIF_OUT": tp, "VERIF_NRANDOM": nrand})
     if rc_ != 0:
